@@ -4,7 +4,8 @@
    the implementation by checks/C18.py. *)
 From Coq Require Import List Arith Bool Sorted.
 Import ListNotations.
-From Verif Require Import BatchRPC.Model BatchRPC.Proofs BatchRPC.Proofs2 BatchRPC.Proofs3 BatchRPC.Proofs4.
+From Verif Require Import BatchRPC.Model BatchRPC.Proofs BatchRPC.Proofs2 BatchRPC.Proofs3 BatchRPC.Proofs4 BatchRPC.Proofs5
+  BatchRPC.System BatchRPC.SysProofs.
 
 (* ids: allocation order is strictly increasing, every id is allocated exactly once (also across stream
    re-creation: no step lowers next_id), every id in the table was allocated to exactly that entry *)
@@ -111,6 +112,109 @@ Theorem C18_monitor_sound : forall s c r, reachable s -> e_ret (ent s c) = Some 
 Proof. exact monitor_sound. Qed.
 Print Assumptions C18_monitor_sound.
 
+(* ids are fresh ACROSS streams: the direct stream and every forwarded-host stream of a connection draw from the one id
+   source and share the table, so two entries in flight -- on whatever hosts -- never carry the same id, and the entry
+   found under an id is the one the id was allocated to *)
+Theorem C18_ids_fresh_across_streams : forall s i c c', reachable s ->
+  In (i, c) (tab s) -> In (i, c') (tab s) -> c = c' /\ e_host (ent s c) = e_host (ent s c') /\ lookup i (alloc s) = Some c.
+Proof.
+  intros s i c c' R H1 H2. pose proof (reachable_inv s R) as I.
+  pose proof (NoDup_fst_inj _ _ _ _ (I_tab_nodup s I) H1 H2). subst. repeat split; auto.
+  apply sorted_lookup; [apply (I_alloc_sorted s I)|]. apply (I_st_alloc s I). left. now apply (I_tab_st s I).
+Qed.
+Print Assumptions C18_ids_fresh_across_streams.
+
+(* an entry cancelled while it is still queued (before buildWithLimit looked at it): its caller has returned the
+   ctx / time-out / closed error, and in EVERY continuation that return value stays, the entry never gets an id, is
+   never put in the table (never sent) and never receives a response *)
+Theorem C18_canceled_before_build : forall s c ls s', reachable s ->
+  e_st (ent s c) = Queued -> e_canceled (ent s c) = true -> run s ls = Some s' ->
+  (exists k, e_ret (ent s c) = Some (Err k) /\ is_abort_kind k = true)
+  /\ e_ret (ent s' c) = e_ret (ent s c)
+  /\ (e_st (ent s' c) = Queued \/ e_st (ent s' c) = Retired)
+  /\ (forall i, ~ In (i, c) (alloc s')) /\ (forall i, ~ In (i, c) (tab s'))
+  /\ (forall p, ~ In (Resp p) (e_comp (ent s' c))).
+Proof. exact canceled_before_build. Qed.
+Print Assumptions C18_canceled_before_build.
+
+(* a recv-loop panic (RecvPanic: while idle or between Load and deliver; FailPanic: at the start of
+   failPendingRequests) completes nothing and loses nothing, the restarted loop holds the current epoch *)
+Theorem C18_recv_panic_keeps_pending : forall s h s',
+  (step s (RecvPanic h) = Some s' \/ step s (FailPanic h) = Some s') ->
+  tab s' = tab s /\ ent s' = ent s /\ alloc s' = alloc s /\ loops s' h = LIdle (epoch s').
+Proof.
+  intros s h s' [H|H]; [destruct (recv_panic_keeps _ _ _ H) as (A & B & C & _ & D) | destruct (fail_panic_keeps _ _ _ H) as (A & B & C & D)]; auto.
+Qed.
+Print Assumptions C18_recv_panic_keeps_pending.
+
+(* ... and every entry that was pending on that stream is completed exactly once in every continuation that reaches
+   the next failure of the stream: at most one completion ever, and the ones still in flight get the stream error *)
+Theorem C18_panic_then_failed_once : forall s h l s1 ls s2 s3 i c, reachable s ->
+  (l = RecvPanic h \/ l = FailPanic h) -> step s l = Some s1 ->
+  In (i, c) (tab s) -> e_host (ent s c) = h ->
+  run s1 ls = Some s2 -> closed s2 = false -> step s2 (StreamFail h) = Some s3 ->
+  e_comp (ent s1 c) = [] /\ In (i, c) (tab s1)
+  /\ e_st (ent s3 c) = Retired /\ length (e_comp (ent s3 c)) <= 1
+  /\ (e_comp (ent s3 c) <> [] \/ e_ret (ent s3 c) <> None)
+  /\ (In (i, c) (tab s2) -> e_comp (ent s3 c) = [Err EStream]).
+Proof. exact panic_then_fail_once. Qed.
+Print Assumptions C18_panic_then_failed_once.
+
+(* the builder / send-loop / async layer (System.v) only performs sequences of core steps: everything above holds
+   for core x of every reachable x *)
+Theorem C18_builder_layer_refines_core : forall x, xreach x -> reachable (core x).
+Proof. exact xreach_core. Qed.
+Print Assumptions C18_builder_layer_refines_core.
+
+(* one call of buildWithLimit: only fetched entries are popped; whatever is left behind has no high priority and no
+   priority above a popped entry; the popped, non-cancelled entries get exactly the next consecutive ids, in
+   order; cancelled ones get none *)
+Theorem C18_build_round : forall x takes x', xstep x (XBuildRound takes) = Some x' ->
+  (forall t, In t takes -> In t (inb x))
+  /\ (forall r, In r (inb x') -> In r (inb x) /\ ~ In r takes /\ pri x r < high_pri /\ forall t, In t takes -> pri x r <= pri x t)
+  /\ (let ps := build_pairs (ent (core x)) (next_id (core x)) takes in
+      alloc (core x') = rev ps ++ alloc (core x)
+      /\ next_id (core x') = next_id (core x) + length ps
+      /\ map fst ps = seq (S (next_id (core x))) (length ps)
+      /\ (forall i c, In (i, c) ps -> In c takes /\ e_canceled (ent (core x) c) = false)).
+Proof.
+  intros x takes x' H. destruct (round_discipline _ _ _ H) as (A & B & _). split; auto. split; auto.
+  exact (round_ids_consecutive _ _ _ H).
+Qed.
+Print Assumptions C18_build_round.
+
+(* Close and the asynchronous API (after fix 000f10e).  (1) When batchSendLoop returns it drains the channel: every
+   asynchronous entry still queued there gets exactly the closed error.  (2) An asynchronous entry that is (or gets)
+   queued while the client is closed can be failed by the sender's re-check.  (3) Regression witness for the code
+   before the fix: once the send loop is gone, NOTHING ELSE completes a queued asynchronous call except its own
+   context -- without (1) and (2) such a call with a context without deadline never returned. *)
+Theorem C18_close_fails_queued_async :
+  (forall x x', xstep x XSendExit = Some x' ->
+     chq x' = [] /\ sendloop x' = false
+     /\ (forall c, In c (chq x) -> asy x c = true -> e_st (ent (core x) c) = Queued ->
+           e_comp (ent (core x') c) = e_comp (ent (core x) c) ++ [Err EClosed] /\ e_st (ent (core x') c) = Retired))
+  /\ (forall x c, closed (core x) = true -> asy x c = true -> e_st (ent (core x) c) = Queued -> e_comp (ent (core x) c) = [] ->
+        exists x', xstep x (XCore (QueueFail c)) = Some x' /\ e_comp (ent (core x') c) = [Err EClosed] /\ e_st (ent (core x') c) = Retired)
+  /\ (forall x c l x', xreach x -> sendloop x = false -> asy x c = true ->
+        e_st (ent (core x) c) = Queued -> e_comp (ent (core x) c) = [] -> xstep x l = Some x' ->
+        (forall k, l <> XCore (Abort c k)) -> l <> XCore (QueueFail c) ->
+        ent (core x') c = ent (core x) c /\ sendloop x' = false /\ asy x' c = true).
+Proof. split; [exact send_exit_drains|]. split; [exact async_queuefail_enabled | exact async_after_exit]. Qed.
+Print Assumptions C18_close_fails_queued_async.
+
+(* the non-batch path (one unary call per request): a completed call stays completed with the same result, a reply is
+   the call's own, and after Close every pending call can be completed with the closed error *)
+Theorem C18_unary_exactly_once :
+  (forall ls u u' c r, urun u ls = Some u' -> ucalls u c = UDone r -> ucalls u' c = UDone r)
+  /\ (forall ls u' c p, urun uinit ls = Some u' -> ucalls u' c = UDone (Resp p) -> p = c)
+  /\ (forall u c, uclosed u = true -> ucalls u c = UPending ->
+        exists u', ustep u (UFail c EClosed) = Some u' /\ ucalls u' c = UDone (Err EClosed)).
+Proof.
+  split; [exact urun_done_stable|]. split; [|exact uclose_completes].
+  intros ls u' c p H. eapply urun_own; eauto. intros c0 p0 H0. discriminate.
+Qed.
+Print Assumptions C18_unary_exactly_once.
+
 (* ---------------------------------------------------------------- non-vacuity *)
 Definition get (o : option state) : state := match o with Some s => s | None => init end.
 
@@ -165,3 +269,34 @@ Example ex_restart_then_reuse_rejected :
   run init [Submit 1 0; Build 1 1; Store 1; Restart; Submit 2 0; Build 2 1] = None
   /\ run init [Submit 1 0; Build 1 1; Store 1; Restart; Submit 2 0; Build 2 2] <> None.
 Proof. split; vm_compute; [reflexivity | discriminate]. Qed.
+
+(* a builder round: entries 1 (pri 0), 2 (pri 12), 3 (pri 5, cancelled) fetched; popping only {2} is a legal round,
+   popping only {1} is not (a high-priority entry would stay behind); popping all skips the cancelled entry *)
+Definition xget (o : option sys) : sys := match o with Some x => x | None => xinit end.
+Definition ex_builder : list xlabel :=
+  [XSubmit 1 0 0 false; XSubmit 2 0 12 false; XSubmit 3 1 5 false; XCore (Abort 3 ECtx); XFetch 1; XFetch 2; XFetch 3].
+Example ex_round : let x := xget (xrun xinit ex_builder) in
+  xstep x (XBuildRound [1]) = None /\ xstep x (XBuildRound [2]) <> None
+  /\ alloc (core (xget (xstep x (XBuildRound [2; 3; 1])))) = [(2, 1); (1, 2)]
+  /\ e_st (ent (core (xget (xstep x (XBuildRound [2; 3; 1])))) 3) = Retired
+  /\ inb (xget (xstep x (XBuildRound [2]))) = [3; 1].
+Proof. vm_compute. repeat split; discriminate. Qed.
+
+(* an asynchronous call queued when the send loop exits is failed with the closed error; one enqueued after the exit
+   satisfies the hypotheses of part (3) and is failed by the sender's re-check *)
+Example ex_async_close : let x := xget (xrun xinit [XSubmit 1 0 0 true; XCore Close; XSendExit]) in
+  e_comp (ent (core x) 1) = [Err EClosed] /\ chq x = [] /\ sendloop x = false.
+Proof. vm_compute. auto. Qed.
+Example ex_async_after_exit : let x := xget (xrun xinit [XCore Close; XSendExit; XSubmit 1 0 0 true]) in
+  xreach x /\ sendloop x = false /\ asy x 1 = true /\ e_st (ent (core x) 1) = Queued /\ e_comp (ent (core x) 1) = []
+  /\ e_comp (ent (core (xget (xstep x (XCore (QueueFail 1))))) 1) = [Err EClosed].
+Proof. split; [exists [XCore Close; XSendExit; XSubmit 1 0 0 true]; reflexivity|]. vm_compute. auto. Qed.
+
+(* recv-loop panic between Load and deliver: the entry stays in the table, its (re-sent) response is delivered once *)
+Example ex_recv_panic : let s := get (run init [Submit 1 0; Build 1 1; Store 1; RecvLoad 0 1 1; RecvPanic 0; RecvLoad 0 1 1; RecvFinish 0; Return 1]) in
+  e_ret (ent s 1) = Some (Resp 1) /\ e_comp (ent s 1) = [Resp 1] /\ tab s = [].
+Proof. vm_compute. auto. Qed.
+
+Example ex_unary : exists u, urun uinit [UCall 1; UCall 2; UReply 1; UClose; UFail 2 EClosed; UCall 3] = Some u
+  /\ ucalls u 1 = UDone (Resp 1) /\ ucalls u 2 = UDone (Err EClosed) /\ ucalls u 3 = UDone (Err EClosed).
+Proof. eexists; split; [vm_compute; reflexivity|]. vm_compute. auto. Qed.
